@@ -258,7 +258,34 @@ func (e *Exec) pinLengths(r symStr) symStr {
 	return symStr{p: out, bytes: r.bytes}
 }
 
+// boundaryCut finds k and c (0..8) such that bound == len(pieces[:k]) + c holds on this path and the
+// c extra bytes are literal; it returns pieces[:k] + those bytes.
+func (e *Exec) boundaryCut(r symStr, bound symBV) (symStr, bool) {
+	p := normRope(r.p)
+	for k := 0; k <= len(p); k++ {
+		prefix := symStr{p: append([]piece{}, p[:k]...), bytes: r.bytes}
+		lt, _ := bvTerm(toI64(ropeLen(prefix)))
+		for c := 0; c <= 8; c++ {
+			if c > 0 {
+				if k >= len(p) || p[k].k != pLit || len(p[k].lit) < c {
+					break
+				}
+			}
+			if e.valid("(= " + bound.t + " (bvadd " + lt + " " + bvConst(int64(c), 64) + "))") {
+				out := prefix
+				if c > 0 {
+					out.p = append(out.p, piece{k: pLit, lit: p[k].lit[:c]})
+				}
+				out.p = normRope(out.p)
+				return out, true
+			}
+		}
+	}
+	return symStr{}, false
+}
+
 func (e *Exec) sliceRope(r symStr, lo, hi value) value {
+	var boundaryResult *symStr
 	if _, isC := concreteLen(r.p); !isC {
 		r = e.concretizeNumbers(r)
 	}
@@ -269,6 +296,12 @@ func (e *Exec) sliceRope(r symStr, lo, hi value) value {
 	conc := func(v value) int {
 		if sv, isSym := v.(symBV); isSym {
 			if !ok {
+				// a bound that provably equals "length of a prefix of the pieces + c" (c = 0..8) cuts
+				// at (or just after) a piece boundary: materialise that prefix
+				if cut, found := e.boundaryCut(r, sv); found {
+					boundaryResult = &cut
+					return -2
+				}
 				panic(abortPath{why: "symbolic slice bound on opaque string", kind: "unsupported"})
 			}
 			inb := "(and (bvsge " + sv.t + " " + bvConst(0, sv.w) + ") (bvsle " + sv.t + " " + bvConst(int64(n), sv.w) + "))"
@@ -282,10 +315,21 @@ func (e *Exec) sliceRope(r symStr, lo, hi value) value {
 	l := 0
 	if lo != nil {
 		l = conc(lo)
+		if l == -2 {
+			panic(abortPath{why: "symbolic lower slice bound on opaque string", kind: "unsupported"})
+		}
 	}
 	h := -1
 	if hi != nil {
 		h = conc(hi)
+		if h == -2 {
+			// r[:hi] with hi at a piece boundary (+ a few literal bytes)
+			res := *boundaryResult
+			if l != 0 {
+				panic(abortPath{why: "slice with symbolic upper and non-zero lower bound on opaque string", kind: "unsupported"})
+			}
+			return ropeVal(res)
+		}
 	}
 	if ok {
 		if h < 0 {
